@@ -1,16 +1,16 @@
 # C04 — init/convert implement the canonical map Z -> Z/m for every source type.   (DESIGN 5/C04)
-# proof:  coq/C04 (Gallina model of every init overload body, written after the code with explicit C semantics;
+# proof:  coq/C04 (Gallina model of every init overload family, written after the code with explicit C conversions;
 #         theorems for all source values and all admissible moduli)
 # tie:    correspondence: extracted model vs init/convert of /repo's current headers (harness/c04_init.C)
 # search: python big-integer specification oracle (x mod m, balanced representative, Montgomery image) on the same cases
-import os, re, sys
+import os, re, sys, json
 from concurrent.futures import ThreadPoolExecutor
 import vf
 
 AREA = "C04"
 
 # ------------------------------------------------------------------ ring families
-# name -> dict(kind, elt (storage C type), note)
+# name -> (kind, element type)
 #   kind: "mod"  canonical representative in [0,p)          raw = x mod p
 #         "bal"  balanced representative                     raw in [halfp-p+1, halfp]
 #         "mont" Montgomery image                            raw = x*2^16 mod p
@@ -48,7 +48,9 @@ SRC_CXX = {"i8": "int8_t", "u8": "uint8_t", "i16": "int16_t", "u16": "uint16_t",
            "i64": "int64_t", "u64": "uint64_t", "f": "float", "d": "double", "I": "Integer",
            "ru6": "ruint<6>", "ru7": "ruint<7>", "ri6": "rint<6>", "ri7": "rint<7>"}
 MAIN_SRCS = ["i32", "u32", "i64", "u64", "f", "d", "I"]
-EXTRA_SRCS = ["i8", "u8", "i16", "u16", "ru6", "ru7", "ri6", "ri7"]
+SMALL_SRCS = ["i8", "u8", "i16", "u16"]
+RECINT_SRCS = ["ru6", "ru7", "ri6", "ri7"]
+ELT_RANGE = dict(SRC_RANGE, f=(-2**24, 2**24), d=(-2**53, 2**53))
 
 
 # ------------------------------------------------------------------ small number theory (moduli)
@@ -93,7 +95,8 @@ def float_representable(x, prec):
     if x == 0:
         return True
     a = abs(x)
-    return (a >> max(0, a.bit_length() - prec)) << max(0, a.bit_length() - prec) == a
+    sh = max(0, a.bit_length() - prec)
+    return (a >> sh) << sh == a
 
 
 def round_to_float(x, prec):
@@ -107,45 +110,48 @@ def round_to_float(x, prec):
 # ------------------------------------------------------------------ moduli and source values
 def moduli(ring, lo, hi, rng, tier):
     """admissible moduli aimed at the boundaries: 2,3, small, max, max-1, primes near max, powers of two +-1"""
-    kind, elt = RINGS[ring]
-    want = {2, 3, 4, 5, 7, 13, 101, 256, 257, hi, hi - 1, hi - 2, hi // 2, hi // 2 + 1, prevprime(hi + 1), prevprime(prevprime(hi + 1))}
+    want = {lo, lo + 1, 4, 5, 7, 13, 101, 256, 257, hi, hi - 1, hi // 2, hi // 2 + 1, prevprime(hi + 1)}
     for b in (7, 8, 15, 16, 24, 31, 32, 53, 63):
         want |= {2**b - 1, 2**b, 2**b + 1, prevprime(2**b), nextprime(2**b)}
     for _ in range(2 if tier == "quick" else 12):
         want.add(rng.range(lo, hi)); want.add(rng.range(lo, min(hi, 70000)))
     ms = sorted(m for m in want if lo <= m <= hi)
-    if ring in ("log16",):                     # table over Z/p: p prime
+    if ring == "log16":                        # table over Z/p: p prime
         ms = sorted({m for m in ms if is_prime(m)} | {prevprime(hi + 1)})
     if ring == "mont32":                       # B = 2^16 must be invertible mod p
         ms = [m for m in ms if m % 2 == 1]
-    if len(ms) > (14 if tier == "quick" else 40):
-        keep = set(ms[:5]) | set(ms[-6:])
+    nkeep = 9 if tier == "quick" else 40
+    if len(ms) > nkeep:
+        keep = set(ms[:3]) | set(ms[-3:])
         rest = [m for m in ms if m not in keep]
         rng.shuffle(rest)
-        ms = sorted(keep | set(rest[:(3 if tier == "quick" else 29)]))
+        ms = sorted(keep | set(rest[:nkeep - 6]))
     return ms
 
 
-GFQ_FIELDS = {"gfq32": [(2, 1), (3, 1), (5, 1), (101, 1), (65521, 1), (2, 2), (2, 8), (3, 3), (5, 2), (7, 3), (2, 16), (251, 2), (13, 4)],
-              "gfq64": [(2, 1), (3, 1), (101, 1), (65537, 1), (1048573, 1), (2, 3), (3, 5), (5, 3), (2, 20), (1021, 2)]}
+GFQ_FIELDS = {"gfq32": [(2, 1), (3, 1), (101, 1), (65521, 1), (2, 2), (2, 8), (3, 3), (7, 3), (2, 16), (251, 2)],
+              "gfq64": [(2, 1), (3, 1), (65537, 1), (1048573, 1), (2, 3), (3, 5), (2, 20), (1021, 2)]}
+GFQ_QUICK = {"gfq32": [(2, 1), (3, 1), (65521, 1), (2, 8), (3, 3), (251, 2)], "gfq64": [(2, 1), (3, 1), (1048573, 1), (3, 5), (1021, 2)]}
 
 
-def values(src, m, rng, n_random):
-    """source values aimed at every case split: 0, +-1, m-1, m, m+1, -m, multiples of m, type limits, 2^53+-1, huge"""
-    base = {0, 1, -1, 2, -2, m - 1, m, m + 1, -m, -m + 1, -m - 1, 2 * m, 2 * m + 1, -2 * m, 3 * m - 1, m // 2, m // 2 + 1, -(m // 2), -(m // 2) - 1,
-            m * m, m * m - 1, -m * m}
-    for b in (7, 8, 15, 16, 23, 24, 31, 32, 52, 53, 62, 63, 64, 65, 100, 127, 128, 200):
+def values(src, m, rng, n_random, quick):
+    """source values aimed at every case split: 0, +-1, m-1, m, m+1, -m, multiples of m, type limits, 2^24/2^53 +-1, huge"""
+    base = {0, 1, -1, 2, -2, m - 1, m, m + 1, -m, -m + 1, -m - 1, 2 * m, -2 * m, 3 * m - 1, m // 2, m // 2 + 1, -(m // 2), -(m // 2) - 1,
+            m * m - 1, -m * m}
+    bs = (7, 8, 15, 16, 24, 31, 32, 53, 63, 64, 128) if quick else (7, 8, 15, 16, 23, 24, 31, 32, 52, 53, 62, 63, 64, 65, 100, 127, 128, 200)
+    for b in bs:
         for d in (-1, 0, 1):
             base.add(2**b + d); base.add(-(2**b) + d)
-    for b in (31, 32, 53, 63, 64, 127, 128):
+    for b in (31, 32, 53, 63, 64, 128):
         q = (2**b) // m
-        base |= {q * m, q * m - 1, q * m + 1, -q * m, -q * m + 1, (q - 1) * m + 1}
+        base |= {q * m, q * m - 1, -q * m, -q * m + 1}
     for _ in range(n_random):
         bits = rng.choice([8, 16, 31, 32, 33, 53, 62, 63, 64, 65, 100, 128, 190])
         v = rng.bits(bits)
         base.add(v); base.add(-v)
         base.add(rng.range(-3 * m, 3 * m))
         base.add(rng.below(4 * m) * m + rng.choice([0, 1, m - 1]))
+        base.add(-(rng.below(1 << rng.choice([10, 31, 62, 90])) * m))
     if src in SRC_RANGE:
         lo, hi = SRC_RANGE[src]
         base |= {lo, lo + 1, hi, hi - 1, lo // 2, hi // 2, hi // 2 + 1}
@@ -161,8 +167,7 @@ def values(src, m, rng, n_random):
         return sorted(out)
     # Integer: add wide values
     for _ in range(max(2, n_random // 2)):
-        v = vf.structured_int(rng, maxlimbs=5)
-        base.add(v)
+        base.add(vf.structured_int(rng, maxlimbs=5))
     base |= {2**256 + 1, -(2**256) - 1, 10**40, -(10**40)}
     return sorted(base)
 
@@ -173,8 +178,7 @@ def canon(ring, m, x):
     kind = RINGS[ring][0]
     r = x % m
     if kind == "bal":
-        halfp = m // 2            # as the constructors define it: floor(p/2); range [halfp-p+1, halfp]
-        return r - m if r > halfp else r
+        return r - m if r > m // 2 else r     # the constructors define _halfp = floor(p/2); range [halfp-p+1, halfp]
     if kind == "mont":
         return (r << 16) % m
     return r
@@ -182,38 +186,46 @@ def canon(ring, m, x):
 
 def lift(ring, m, x):
     """the integer convert must return for the element init(x)"""
-    kind = RINGS[ring][0]
     r = x % m
-    if kind == "bal":
+    if RINGS[ring][0] == "bal":
         return r - m if r > m // 2 else r
     return r
 
 
 CONV_FORMS = ["I", "i64", "u64", "d", "i32", "u32"]
 CONV_RANGE = {"I": None, "i64": SRC_RANGE["i64"], "u64": SRC_RANGE["u64"], "d": (-2**53, 2**53), "i32": SRC_RANGE["i32"], "u32": SRC_RANGE["u32"]}
+RT_FORMS = ["I", "i64", "u64", "d"]
 
 
-def klass_of(src, m, x):
-    """input class used as the key of known findings (never the concrete value)"""
-    if src in SRC_RANGE:
-        lo, hi = SRC_RANGE[src]
-        if x == lo and lo < 0:
-            return "type-min"
-    if x < 0:
-        return "negative"
-    if src in ("u32", "u64", "u16", "u8") and x > SRC_RANGE[src][1] // 2:
+def klass_of(ring, src, m, x):
+    """input class used as the key of known findings (never the concrete value); ordered from the most specific"""
+    if src in SRC_RANGE and SRC_RANGE[src][0] < 0 and x == SRC_RANGE[src][0]:
+        return "type-min"
+    if src in ("f", "d"):
+        prec = 24 if src == "f" else 53
+        if not float_representable(m, prec):
+            return "modulus-not-representable-in-source"
+        a = abs(x)
+        for b in (64, 63, 53, 32, 31, 24):
+            if a >= 2**b:
+                return "magnitude>=2^%d" % b
+        return "negative" if x < 0 else ("ge-m" if x >= m else "small")
+    if src in ("u8", "u16", "u32", "u64") and x > SRC_RANGE[src][1] // 2:
         return "above-signed-max"
-    if src == "I" and abs(x) >= 2**63:
-        return "wide"
-    if src in ("f", "d") and abs(x) >= 2**63:
-        return "huge-float"
-    if src in ("f", "d") and abs(x) >= 2**31:
-        return "large-float"
-    if src in ("ru6", "ru7", "ri6", "ri7"):
-        return "recint"
-    if x >= m:
-        return "ge-m"
-    return "small"
+    a = abs(x)
+    if src == "I" or src in RECINT_SRCS:
+        for b in (128, 64, 63, 53, 24):
+            if a >= 2**b:
+                return ("negative-" if x < 0 else "") + "magnitude>=2^%d" % b
+    if x < 0:
+        return "negative-multiple-of-m" if x % m == 0 else "negative"
+    if src in ("i64", "u64"):
+        for b in (53, 24):
+            if a >= 2**b:
+                return "magnitude>=2^%d" % b
+    if src in ("i32", "u32") and a >= 2**24:
+        return "magnitude>=2^24"
+    return "ge-m" if x >= m else "small"
 
 
 # ------------------------------------------------------------------ running the implementation
@@ -222,7 +234,7 @@ def run_impl(binary, lines, timeout=600):
     out = []
     rest = list(lines)
     guard = 0
-    while rest and guard < 40:
+    while rest and guard < 60:
         guard += 1
         rc, o, err = vf.run_lines(binary, "".join(l + "\n" for l in rest), timeout=timeout)
         o = [l for l in o if not l.startswith("#")]
@@ -238,10 +250,72 @@ def run_impl(binary, lines, timeout=600):
     return out
 
 
+def gen_cases(rings, cards, rng, tier):
+    quick = tier == "quick"
+    nrand = 3 if quick else 40
+    cases = []     # (op, ring, src, p, k, x)
+    for ring in rings:
+        if ring not in cards:
+            continue
+        lo, hi = cards[ring]
+        if ring in GFQ_FIELDS:
+            fields = (GFQ_QUICK if quick else GFQ_FIELDS)[ring]
+        else:
+            if hi < lo:          # "no maximum" (Modular<Integer>: -1)
+                hi = 2**200
+            fields = [(m, 1) for m in moduli(ring, lo, hi, rng, tier)]
+        elt = RINGS[ring][1]
+        for (p, k) in fields:
+            m = p**k
+            cases.append(("const", ring, "-", p, k, 0))
+            for src in MAIN_SRCS + SMALL_SRCS + RECINT_SRCS:
+                vals = values(src, m, rng, nrand, quick)
+                if src in RECINT_SRCS and not elt.startswith("ru"):
+                    # RecInt sources reach the word rings through the generic `Caster<Element>(a)`, a plain static_cast that
+                    # keeps the low word / rounds to double: only values the element type holds exactly are in the claim here
+                    elo, ehi = ELT_RANGE.get(elt, (-2**63, 2**63))
+                    vals = [v for v in vals if elo <= v <= ehi and abs(v) < 2**31][::2]
+                elif src in SMALL_SRCS and quick:
+                    vals = vals[::2] + vals[-2:]
+                for x in vals:
+                    cases.append(("init", ring, src, p, k, x))
+                if src in ("i64", "I", "d", "u32"):
+                    for x in vals[::3]:
+                        cases.append(("rt", ring, src, p, k, x))
+    return cases
+
+
+def model_line(c):
+    op, ring, src, p, k, x = c
+    return "%s %s %s %d %d" % (op, ring, src, p**k, x)
+
+
 def main(tier, replay=None):
     chk = vf.Check("C04", tier, "proof")
     rng = vf.Rng(chk.seed)
     explore = os.environ.get("C04_EXPLORE")
+    chk.cov["trusted_base"] = [
+        "Coq 8.16.1 kernel + vm_compute (no native_compute)",
+        "extraction: ExtrOcamlBasic only; Z/positive kept as extracted inductives; OCaml 4.13.1; zarith only for text I/O in harness/zio.ml",
+        "C semantics used by the model (coq/C04/Model.v): two's-complement wrap for integer conversions and for `-y`, usual arithmetic "
+        "conversions, % = Z.rem, IEEE fmod exact, int->float conversion round-to-nearest-even, Integer::operator% truncating, "
+        "Integer::mod euclidean; validated by the correspondence run",
+        "table contents of GFqDom / Modular<Log16> (pol2log, _tab_value2rep) are C05's subject: the model computes the table index",
+        "harness/c04_init.C, checks/C04.py (case generator, python big-integer oracle)", "g++ 12 / x86-64 (-O2 -march=native, FMA contraction as compiled) for the implementation side",
+    ]
+    chk.assumptions = ["model is hand-written after the init/convert bodies; tie = correspondence on generated cases for every (ring, source type) pair",
+                       "bodies repaired by frag/C04.fix-1..4 are modelled in repaired form; the old behaviour is a known finding until the repair is in /repo"]
+    # 1. proofs
+    if os.path.exists(os.path.join(vf.coq_dir(AREA), "Properties.v")):
+        res = vf.coq_check_props(AREA, timeout=900)
+        chk.proof_result(res, AREA)
+    else:
+        ok, out = vf.coq_make(AREA, timeout=900)
+        chk.broke("coq/C04/Properties.v is missing", out)
+    # 2. executables
+    drv, l1 = vf.ocaml_build(AREA) if os.path.exists(os.path.join(vf.coq_dir(AREA), "ocaml", "model.ml")) else (None, "extraction did not run")
+    if drv is None:
+        chk.broke("extracted model driver does not build", l1)
     himpl, l2 = vf.build_harness("c04_init.C", link_lib=True, deps=["c04_allow.inc"])
     if himpl is None:
         chk.broke("implementation harness does not compile against /repo", l2)
@@ -257,104 +331,146 @@ def main(tier, replay=None):
         except (ValueError, IndexError):
             chk.broke("cannot read min/maxCardinality of %s: %r" % (r, l))
     chk.cov["cardinalities_from_implementation"] = {r: list(cards[r]) for r in cards}
-    # ---- cases
-    nrand = 6 if tier == "quick" else 60
-    cases = []     # (op, ring, src, m, k, x)
-    for ring in rings:
-        if ring not in cards:
-            continue
-        lo, hi = cards[ring]
-        if ring in GFQ_FIELDS:
-            fields = GFQ_FIELDS[ring]
-        else:
-            if hi < lo:          # "no maximum" (Modular<Integer>: -1)
-                hi = 2**200
-            if ring == "mru7":
-                pass
-            fields = [(m, 1) for m in moduli(ring, lo, hi, rng, tier)]
-        for (p, k) in fields:
-            m = p**k
-            cases.append(("const", ring, "-", p, k, 0))
-            for src in MAIN_SRCS + EXTRA_SRCS:
-                vals = values(src, m, rng, nrand)
-                if src in EXTRA_SRCS and tier == "quick":
-                    vals = vals[::3] + vals[-2:]
-                for x in vals:
-                    cases.append(("init", ring, src, p, k, x))
-                if src in ("i64", "I", "d"):
-                    for x in vals[::4]:
-                        cases.append(("rt", ring, src, p, k, x))
+    # 3. cases
+    if replay:
+        rp = json.load(open(replay))
+        cases = []
+        for f in rp.get("failing_inputs", []):
+            c = f["case"]
+            cases.append((c["op"], c["ring"], c["src"], int(c["p"]), int(c["k"]), int(c["x"])))
+    else:
+        cases = gen_cases(rings, cards, rng, tier)
     by_ring = {}
     for c in cases:
         by_ring.setdefault(c[1], []).append(c)
 
     def run_ring(ring):
         cs = by_ring[ring]
-        return ring, run_impl(himpl, ["%s %s %s %d %d %d" % c for c in cs])
-    with ThreadPoolExecutor(max_workers=vf.NCPU) as ex:
+        io = run_impl(himpl, ["%s %s %s %d %d %d" % c for c in cs])
+        mo = None
+        if drv:
+            rc, mo, merr = vf.run_lines(drv, "".join(model_line(c) + "\n" for c in cs), timeout=1500)
+            if rc != 0 or len(mo) != len(cs):
+                mo = "model driver failed on ring %s (rc=%s, %d/%d lines) %s" % (ring, rc, len(mo), len(cs), merr[-500:])
+        return ring, (io, mo)
+    with ThreadPoolExecutor(max_workers=max(2, vf.NCPU // 2)) as ex:
         results = dict(ex.map(run_ring, sorted(by_ring)))
-    # ---- comparison with the specification oracle
+    # 4. three-way comparison
     dist = {}
+    ncorr = 0
+    nub = 0
     for ring in sorted(by_ring):
         kind, elt = RINGS[ring]
-        for c, line in zip(by_ring[ring], results[ring]):
+        io, mo = results[ring]
+        if isinstance(mo, str):
+            chk.broke(mo)
+            mo = None
+        for i, (c, line) in enumerate(zip(by_ring[ring], io)):
             op, _, src, p, k, x = c
             m = p**k
             t = line.split()
+            ml = mo[i].split() if mo is not None else None
             site = "%s::init(%s)" % (RING_CXX[ring], SRC_CXX.get(src, src)) if op != "const" else "%s::constants" % RING_CXX[ring]
             if line == "NOFORM":
                 continue
-            dist[(ring, src, op)] = dist.get((ring, src, op), 0) + 1
+            dist[ring + "/" + src] = dist.get(ring + "/" + src, 0) + 1
             chk.count((op, ring, src, p, k, x), nontrivial=(abs(x) >= m or x < 0))
             case = {"op": op, "ring": ring, "src": src, "p": p, "k": k, "x": str(x)}
-            kl = klass_of(src, m, x) if op != "const" else "constants"
+            kl = klass_of(ring, src, m, x) if op != "const" else "constants"
+            nfail = len(chk.failing)
+            if len(chk.cov["samples"]) < 12 and i % 1499 == 7:
+                chk.sample({"case": case, "impl": line, "model": mo[i] if mo is not None else None})
             if line.startswith("CRASH") or line.startswith("BAD"):
-                chk.fail_input(site, kl, case, "a result", line, "harness crashed / refused on this input")
+                chk.fail_input(site, kl, case, "a result", line, "the call crashed (or the harness refused the input)")
                 continue
             if op == "init":
                 want_raw = canon(ring, m, x)
                 want_lift = lift(ring, m, x)
                 if kind != "tab" and t[0] != str(want_raw):
                     chk.fail_input(site, kl, case, str(want_raw), t[0], "init does not produce the canonical element of x mod m")
-                    continue
-                for form, got in zip(CONV_FORMS, t[1:]):
-                    if got == "-":
-                        continue
+                else:
+                    for form, got in zip(CONV_FORMS, t[1:]):
+                        if got == "-":
+                            continue
+                        rg = CONV_RANGE[form]
+                        if rg is not None and not (rg[0] <= want_lift <= rg[1]):
+                            continue        # the lift does not fit the target type: outside the claim
+                        if got != str(want_lift):
+                            if kind == "tab":
+                                chk.fail_input(site, kl, case, str(want_lift), got, "convert<%s>(init(x)) is not x mod m" % form)
+                            else:
+                                chk.fail_input("%s::convert(%s)" % (RING_CXX[ring], form), "canonical-element", case, str(want_lift), got,
+                                               "convert of the canonical element is not its canonical lift")
+                            break
+                # correspondence
+                if ml is not None and len(chk.failing) == nfail and ml[0] not in ("NOMODEL",):
+                    if ml[0] == "UB":
+                        nub += 1
+                    else:
+                        ncorr += 1
+                        got_m = t[1] if kind == "tab" else t[0]
+                        if ml[0] != got_m:
+                            chk.broke("correspondence: model and implementation differ on %s m=%d x=%d: model=%s impl=%s (oracle agrees with impl)"
+                                      % (site, m, x, ml[0], got_m))
+            elif op == "rt":
+                want_lift = lift(ring, m, x)
+                if kind != "tab" and t[0] != str(canon(ring, m, x)):
+                    continue            # init itself is off: reported by the init case of the same input
+                for form, got in zip(RT_FORMS, t[1:]):
                     rg = CONV_RANGE[form]
                     if rg is not None and not (rg[0] <= want_lift <= rg[1]):
-                        continue        # the lift does not fit the target type: outside the claim
-                    if got != str(want_lift):
-                        chk.fail_input("%s::convert(%s)" % (RING_CXX[ring], form), kl, case, str(want_lift), got,
-                                       "convert(init(x)) is not the canonical lift of x mod m")
-                        break
-            elif op == "rt":
-                for got in t[1:]:
+                        continue        # the lift does not fit the intermediate type: outside the claim
                     if got != t[0]:
-                        chk.fail_input(site + "/roundtrip", kl, case, t[0], got, "init(convert(e)) != e")
+                        chk.fail_input("%s::init(%s)/roundtrip" % (RING_CXX[ring], SRC_CXX[{"I": "I", "i64": "i64", "u64": "u64", "d": "d"}[form]]),
+                                       klass_of(ring, form, m, want_lift), case, t[0], got, "init(convert<%s>(e)) != e" % form)
                         break
+                if ml is not None and len(chk.failing) == nfail and ml[0] not in ("NOMODEL", "UB") and kind != "tab":
+                    ncorr += 1
+                    for j, form in enumerate(RT_FORMS):
+                        rg = CONV_RANGE[form]
+                        if rg is not None and not (rg[0] <= want_lift <= rg[1]):
+                            continue
+                        if j + 1 < len(ml) and ml[j + 1] != "UB" and ml[j + 1] != t[j + 1]:
+                            chk.broke("correspondence (round trip through %s): model and implementation differ on %s m=%d x=%d: model=%s impl=%s"
+                                      % (form, site, m, x, ml[j + 1], t[j + 1]))
             elif op == "const":
                 want = [canon(ring, m, 0), canon(ring, m, 1), canon(ring, m, -1)]
+                wl = [lift(ring, m, 0), lift(ring, m, 1), lift(ring, m, -1)]
+                names = ("zero", "one", "mOne")
+                if kind == "tab" and k > 1:
+                    # GF(p^k), k > 1: init is the p-adic lift mod q (DESIGN 5/C04), not a ring morphism; -1 is the image of p-1
+                    wl[2] = (p - 1) % p if p > 2 else 1
                 if kind != "tab":
-                    for nm, w, g in zip(("zero", "one", "mOne"), want, t[:3]):
+                    for nm, w, g in zip(names, want, t[:3]):
                         if str(w) != g:
                             chk.fail_input(site, "constants", case, str(w), g, "%s is not the image of %s" % (nm, {"zero": 0, "one": 1, "mOne": -1}[nm]))
-                wl = [lift(ring, m, 0), lift(ring, m, 1), lift(ring, m, -1)]
-                for nm, w, g in zip(("zero", "one", "mOne"), wl, t[3:6]):
+                for nm, w, g in zip(names, wl, t[3:6]):
                     if g != "-" and str(w) != g:
                         chk.fail_input(site, "constants", case, str(w), g, "convert(%s) is not the lift" % nm)
-                if t[6] != t[2]:
+                if t[6] != t[2] and not (kind == "tab" and k > 1):
                     chk.fail_input(site, "constants", case, t[2], t[6], "init(-1) != mOne")
                 if t[7] != t[0]:
                     chk.fail_input(site, "constants", case, t[0], t[7], "init() != zero")
+                if ml is not None and len(chk.failing) == nfail and ml[0] != "NOMODEL" and kind != "tab":
+                    ncorr += 1
+                    if ml[:3] != t[:3] or ml[3] != t[6]:
+                        chk.broke("correspondence (constants): model and implementation differ on %s m=%d: model=%s impl=%s" % (site, m, ml, t[:3] + [t[6]]))
+    if len(chk.broken) > 25:
+        chk.broken = chk.broken[:25] + [{"what": "... %d more" % (len(chk.broken) - 25), "detail": ""}]
     if explore:
         agg = {}
         for f in chk.failing:
-            key = (f["site"], f["klass"])
-            agg.setdefault(key, []).append(f)
+            agg.setdefault((f["site"], f["klass"]), []).append(f)
         for key in sorted(agg):
             f = agg[key][0]
-            print("%-60s %-18s n=%-5d e.g. p=%s k=%s x=%s want=%s got=%s" % (key[0], key[1], len(agg[key]), f["case"]["p"], f["case"]["k"], f["case"]["x"], f["expected"], f["observed"]))
-        print("cases", len(cases), "failing", len(chk.failing))
+            print("%-60s %-40s n=%-5d e.g. p=%s k=%s x=%s want=%s got=%s" % (key[0], key[1], len(agg[key]), f["case"]["p"], f["case"]["k"], f["case"]["x"], f["expected"], f["observed"]))
+        for b in chk.broken:
+            print("BROKE", b["what"][:300])
+        print("cases", len(cases), "failing", len(chk.failing), "tie-compared", ncorr, "model-UB", nub)
         return 0
-    chk.cov["rule"] = "every ring family x every source type x boundary moduli x boundary values; non-trivial = x<0 or |x|>=m"
+    chk.cov["rule"] = ("every ring family x every source type x boundary moduli (2,3,max,max-1,2^k+-1,random) x boundary values (0,+-1,m-1,m,m+1,"
+                       "multiples of m, type limits, 2^24/2^53/2^63/2^64 +-1, random, wide); non-trivial = x<0 or |x|>=m; distinct = (op,ring,src,p,k,x)")
+    chk.cov["traces_validated_against_impl"] = ncorr
+    chk.cov["model_leaves_defined_behaviour"] = nub
+    chk.cov["distribution_by_ring_and_source"] = dist
     return chk.finish()
